@@ -52,8 +52,7 @@ theorem unspentOf_subset_leaves (path : List BlkInfo) : ∀ l ∈ unspentOf path
 theorem validAt_consistent (bc : Nat → Bool) (path : List BlkInfo) :
     validAt bc (consistent path) [] path = true := by
   unfold validAt consistent
-  simp only [List.take_length, List.filter_nil, List.append_nil, BEq.rfl, Bool.true_and, Bool.and_true,
-    List.length_map]
+  simp only [List.take_length, List.filter_nil, List.append_nil, BEq.rfl, Bool.true_and, Bool.and_true]
   have hsub := unspentOf_subset_leaves path
   have e : (unspentOf path).filter (fun l => (leavesOf path).contains l) = unspentOf path := by
     apply List.filter_eq_self.mpr
